@@ -592,8 +592,8 @@ def c11(F: Facts):
                 me = (bus, ev, hi)
                 n = len(F.enters.get(me, []))
                 rows = [r for r in s['results'] if r['h'] == f'h{hi}' and r['bus'] == bus]
-                if stops and ev in abandoned and me not in raised and me not in own_cancel:
-                    continue
+                if stops and ev in abandoned:
+                    continue  # (also handlers that raised: a stop() landing at the very instant may replace the error it just raised)
                 if with_timeouts:
                     # handlers cut off by a timeout, and handlers of an event whose processing an awaiting ancestor's timeout
                     # interrupted, are C10's subject; everything that raised on its own is still judged below
